@@ -603,10 +603,11 @@ func buildWorld(bc BCase) *world {
 
 // spy wraps a registered migration to observe what Migrate returns and the context state
 type spy struct {
-	inner migration.Migration
-	idx   int
-	log   *[]string
-	bad   *[]string
+	inner    migration.Migration
+	idx      int
+	log      *[]string
+	bad      *[]string
+	onBefore func(idx int, st []byte)
 }
 
 func (s *spy) Before(st []byte) error {
@@ -615,6 +616,9 @@ func (s *spy) Before(st []byte) error {
 		tok = strconv.Itoa(len(st))
 	}
 	*s.log = append(*s.log, fmt.Sprintf("I%d:%s", s.idx, tok))
+	if s.onBefore != nil {
+		s.onBefore(s.idx, st)
+	}
 	return s.inner.Before(st)
 }
 func (s *spy) Migrate(ctx context.Context, d db.KeyValueStore, n *networks.Network, l log.StructuredLogger) ([]byte, error) {
@@ -640,12 +644,37 @@ func (s *spy) Migrate(ctx context.Context, d db.KeyValueStore, n *networks.Netwo
 }
 
 type cfg struct {
-	newState bool // headstate optional flag
-	prune    bool // historyprunner optional flag (configured so that nothing is prunable)
-	nmig     int  // registry truncated (downgrade test); 4 = full
+	newState bool   // headstate optional flag
+	prune    bool   // historyprunner optional flag
+	retained uint64 // historyprunner retained blocks; 0 = so many that nothing is prunable
+	nmig     int    // registry truncated (downgrade test); 4 = full
+	// cancel the context at the cancelReads-th read after Before of migration cancelMig-1 (0 = off)
+	cancelMig   int
+	cancelReads int
+}
+
+// abstraction of the commitments / state updates to the model's sdb
+func abstractSDL(m *memory.Database) string {
+	h, err := core.GetChainHeight(m)
+	if err != nil {
+		return ""
+	}
+	var bl []string
+	for i := uint64(0); i <= h; i++ {
+		cm, err := core.GetBlockCommitmentByBlockNum(m, i)
+		if err != nil {
+			bl = append(bl, "-")
+			continue
+		}
+		su, err := core.GetStateUpdateByBlockNum(m, i)
+		hx.Must(err)
+		bl = append(bl, fmt.Sprintf("%d:%d", su.StateDiff.Length(), cm.StateDiffLength))
+	}
+	return strings.Join(bl, ",")
 }
 
 type runOut struct {
+	sdlPre string // "<checkpoint> <sdb>" when statedifflength was invoked
 	res    string
 	err    error
 	px     *proxy
@@ -654,13 +683,17 @@ type runOut struct {
 	merged []string
 }
 
-func realRegistry(c cfg, evlog, bad *[]string) *migration.Registry {
+func realRegistry(c cfg, evlog, bad *[]string, onBefore func(int, []byte)) *migration.Registry {
 	reg := migration.NewRegistry()
+	retained := c.retained
+	if retained == 0 {
+		retained = 1 << 40
+	}
 	add := func(i int, m migration.Migration, optional, enabled bool, name string) {
 		if i >= c.nmig {
 			return
 		}
-		s := &spy{inner: m, idx: i, log: evlog, bad: bad}
+		s := &spy{inner: m, idx: i, log: evlog, bad: bad, onBefore: onBefore}
 		if optional {
 			reg.WithOptional(s, enabled, name)
 		} else {
@@ -669,7 +702,7 @@ func realRegistry(c cfg, evlog, bad *[]string) *migration.Registry {
 	}
 	// node/migration.go registerMigrations
 	add(0, &blocktransactions.Migrator{}, false, true, "")
-	add(1, historyprunner.New(1<<40, 0), true, c.prune, "prune")
+	add(1, historyprunner.New(retained, 0), true, c.prune, "prune")
 	add(2, &headstate.Migrator{}, true, c.newState, "new-state")
 	add(3, &statedifflength.Migrator{}, false, true, "")
 	return reg
@@ -683,7 +716,21 @@ func runReal(m *memory.Database, c cfg, keep bool, cancelAtWrite, cancelAtRead i
 	px.cancel = cancel
 	px.cancelAtWrite, px.cancelAtRead = cancelAtWrite, cancelAtRead
 	out.px = px
-	reg := realRegistry(c, &out.log, &out.bad)
+	reg := realRegistry(c, &out.log, &out.bad, func(idx int, st []byte) {
+		if idx == 3 {
+			// the state the statedifflength backfill starts from, for the model (sdl_migrate)
+			ck := 0
+			if len(st) == 8 {
+				ck = int(binary.BigEndian.Uint64(st))
+			}
+			out.sdlPre = fmt.Sprintf("%d %s", ck, abstractSDL(m))
+		}
+		if c.cancelMig == idx+1 {
+			px.mu.Lock()
+			px.cancelAtRead = px.reads + c.cancelReads
+			px.mu.Unlock()
+		}
+	})
 	before, _ := migration.GetSchemaMetadata(m)
 	runner, newErr := migration.NewRunner(reg, px, &networks.Sepolia, log.NewNopZapLogger())
 	var runErr error
@@ -778,6 +825,10 @@ func (w *world) preserved(m *memory.Database) (string, int) {
 	if w.bc.Variant == "v1" {
 		first = w.bc.Prune
 	}
+	return w.preservedFrom(m, first)
+}
+
+func (w *world) preservedFrom(m *memory.Database, first int) (string, int) {
 	bcn := blockchain.New(m, &networks.Sepolia)
 	for i := first; i <= w.height; i++ {
 		bn := uint64(i)
@@ -833,6 +884,23 @@ func (w *world) preserved(m *memory.Database) (string, int) {
 		}
 	}
 	return "", -1
+}
+
+// sdl_migrate applied to the state the backfill started from predicts the state after an
+// uninterrupted, successful statedifflength run
+func checkSDL(c *hx.Ctx, or *hx.Oracle, o runOut, m *memory.Database, cancelled bool, rp any, where string) {
+	if o.sdlPre == "" || strings.HasSuffix(o.sdlPre, " ") || cancelled {
+		return
+	}
+	pred := or.Ask("SD "+o.sdlPre, 1)[0]
+	got := "none"
+	if o.res == "ok" {
+		got = "some " + abstractSDL(m)
+	}
+	c.Hist["sdl-model:"+strings.SplitN(pred, " ", 2)[0]]++
+	if pred != got {
+		c.Violation("sdl-model-mismatch:"+where, fmt.Sprintf("statedifflength started from (checkpoint, blocks) %s: model predicts %s, code gave %s (%v)", o.sdlPre, pred, got, o.err), rp, o.res == "ok")
+	}
 }
 
 func (w *world) rangeEmpty(block int) bool {
@@ -992,6 +1060,7 @@ func runB(c *hx.Ctx, or *hx.Oracle, r *hx.RNG, bc BCase, budget int) {
 				tok = "r"
 			}
 			o2 := runReal(m, full, false, 0, 0)
+			checkSDL(c, or, o2, m, false, map[string]any{"kind": "B", "case": bc}, "crash-restart")
 			b.checkRun(o2, "crash-restart")
 			if o2.res != "ok" {
 				c.Violation("crash-restart-failed", fmt.Sprintf("counts=%v: crash after write %d, restart: %v", bc.Counts, k%nWrites+1, o2.err), map[string]any{"kind": "B", "case": bc}, false)
@@ -1113,6 +1182,100 @@ func runB(c *hx.Ctx, or *hx.Oracle, r *hx.RNG, bc BCase, budget int) {
 	}
 }
 
+// ---------------------------------------------------------------------------------------------
+// P-cases: the optional pruning migration (real historyprunner with a real retention window)
+// enabled between restarts while the statedifflength backfill holds a checkpoint
+// ---------------------------------------------------------------------------------------------
+type PCase struct {
+	Blocks   int
+	Retained int
+	Points   []int // cancel at that many reads after statedifflength's Before, pruning still disabled
+}
+
+func runP(c *hx.Ctx, or *hx.Oracle, pc PCase) {
+	cs := make([]int, pc.Blocks)
+	for i := range cs {
+		cs[i] = (i*7 + 3) % 3
+	}
+	w := buildWorld(BCase{Counts: cs, Variant: "v1"})
+	start := w.oldDB.Copy()
+	hx.Must(core.WriteL1Head(start, &core.L1Head{BlockNumber: uint64(w.height), BlockHash: &felt.Zero, StateRoot: &felt.Zero}))
+	final := cfg{nmig: 4, prune: true, retained: uint64(pc.Retained)}
+	rp := map[string]any{"kind": "P", "p": pc}
+	ref := start.Copy()
+	o := runReal(ref, final, false, 0, 0)
+	checkSDL(c, or, o, ref, false, rp, "prune-toggle-uninterrupted")
+	if o.res != "ok" {
+		c.Violation("prune-toggle:uninterrupted-run-failed", fmt.Sprintf("blocks=%d retained=%d: %v", pc.Blocks, pc.Retained, o.err), rp, false)
+		return
+	}
+	floorU, err := pruner.OldestRetainedBlock(ref)
+	hx.Must(err)
+	floor := int(floorU)
+	if sym, blk := w.preservedFrom(ref, floor); sym != "" {
+		c.Violation("prune-toggle:uninterrupted:"+sym, fmt.Sprintf("blocks=%d retained=%d floor=%d: block %d %s", pc.Blocks, pc.Retained, floor, blk, sym), rp, false)
+		return
+	}
+	refDmp := dump(ref)
+	c.Hist[fmt.Sprintf("p:floor=%d/height=%d", floor, w.height)]++
+	for _, pt := range pc.Points {
+		m := start.Copy()
+		o1 := runReal(m, cfg{nmig: 4, cancelMig: 4, cancelReads: pt}, false, 0, 0)
+		for _, s := range o1.bad {
+			c.Violation("well-behaved:prune-toggle", s, rp, false)
+		}
+		ck := -1
+		if b, err := migration.GetIntermediateState(m, 3); err == nil && len(b) == 8 {
+			ck = int(binary.BigEndian.Uint64(b))
+		}
+		rel := "none"
+		switch {
+		case ck < 0:
+		case ck == 0:
+			rel = "zero"
+		case ck < floor:
+			rel = "below-floor"
+		case ck == floor:
+			rel = "at-floor"
+		default:
+			rel = "above-floor"
+		}
+		c.Hist["p:boot1="+o1.res+",checkpoint="+rel]++
+		desc := fmt.Sprintf("blocks=%d retained=%d (floor %d): start 1 with pruning disabled cancelled at read %d of the statedifflength backfill (%s, checkpoint %d); start 2 with pruning enabled", pc.Blocks, pc.Retained, floor, pt, o1.res, ck)
+		var o2 runOut
+		for try := 0; try < 3; try++ {
+			o2 = runReal(m, final, false, 0, 0)
+			checkSDL(c, or, o2, m, false, rp, "prune-toggle-resume")
+			for _, s := range o2.bad {
+				c.Violation("well-behaved:prune-toggle", s, rp, false)
+			}
+			if o2.res == "ok" {
+				break
+			}
+		}
+		c.Count(fmt.Sprintf("P:%d:%d:%d", pc.Blocks, pc.Retained, pt), ck > 0)
+		if o2.res != "ok" {
+			c.Violation("statedifflength:resume-after-pruning-enabled:run-fails:checkpoint-"+rel,
+				fmt.Sprintf("%s never completes: %s: %v", desc, o2.res, o2.err), rp, false)
+			continue
+		}
+		md, _ := migration.GetSchemaMetadata(m)
+		if uint64(md.CurrentVersion) != 0b1011 || uint64(md.LastTargetVersion) != 0b1011 {
+			c.Violation("prune-toggle:metadata", fmt.Sprintf("%s: cur=%b last=%b", desc, md.CurrentVersion, md.LastTargetVersion), rp, false)
+		}
+		if _, err := migration.GetIntermediateState(m, 3); err == nil {
+			c.Violation("prune-toggle:token-left", desc, rp, false)
+		}
+		if sym, blk := w.preservedFrom(m, floor); sym != "" {
+			c.Violation("prune-toggle:"+sym+":checkpoint-"+rel, fmt.Sprintf("%s: block %d %s", desc, blk, sym), rp, false)
+			continue
+		}
+		if dump(m) != refDmp {
+			c.Violation("prune-toggle:final-db-differs:checkpoint-"+rel, desc+": final database differs from the one obtained without interruption under the same final flags", rp, false)
+		}
+	}
+}
+
 func main() {
 	c := hx.NewCtx("C18")
 	or := hx.StartOracle(c.OraclePath)
@@ -1124,9 +1287,12 @@ func main() {
 			Kind string
 			Case BCase
 			R    RCase
+			P    PCase
 		}
 		c.LoadReplay(&rp)
-		if rp.Kind == "B" {
+		if rp.Kind == "P" {
+			runP(c, or, rp.P)
+		} else if rp.Kind == "B" {
 			for i := 0; i < 3; i++ { // commit order is scheduler-dependent: a few attempts
 				runB(c, or, rng, rp.Case, 4)
 			}
@@ -1233,6 +1399,24 @@ func main() {
 			c.Sample(map[string]any{"kind": "B", "case": bc})
 		}
 	}
-	c.Extra["registered_migrations_checked_for_well_behaved"] = []string{"blocktransactions", "historyprunner(no-op config)", "headstate", "statedifflength"}
+	// ---- P ----
+	pcases := []PCase{
+		{Blocks: 60, Retained: 20, Points: []int{1, 2, 6, 16, 30, 50, 76, 78, 80, 82, 90, 110}},
+		{Blocks: 33, Retained: 3, Points: []int{3, 9, 20, 40, 58, 60, 62}},
+	}
+	if c.Thorough() {
+		for i := 0; i < 10; i++ {
+			n := 30 + rng.Intn(120)
+			pc := PCase{Blocks: n, Retained: 1 + rng.Intn(n-12)}
+			for k := 0; k < 16; k++ {
+				pc.Points = append(pc.Points, 1+rng.Intn(2*n+8))
+			}
+			pcases = append(pcases, pc)
+		}
+	}
+	for _, pc := range pcases {
+		runP(c, or, pc)
+	}
+	c.Extra["registered_migrations_checked_for_well_behaved"] = []string{"blocktransactions", "historyprunner(no-op config; real retention only uninterrupted)", "headstate", "statedifflength"}
 	c.Finish("real runner+registry vs extracted run_boot on multi-boot schedules (result, metadata, tokens, crash points, event log); real migrations: data_preserved via accessors, resume_same_db via full dump, well_behaved/applied_after_done on observed returns, bt_complete/preserved vs code")
 }
